@@ -192,6 +192,55 @@ void h_qs_safe(void)
 }
 #endif
 
+/* ---------- log_quoted_string by LOOP INVARIANT (every string shorter than N; nothing unwound inside the function) ----------
+ * Same buffer discipline as h_qs_safe (2*N bytes, guard bytes 0x5A behind the first 2*len+1). The loop of the real function
+ * carries the invariant in loops.json: str walks the input, p - out <= 2*(str - in), every output byte written so far obeys the
+ * alphabet claims (ghost index g), guard bytes intact. Inside the loop strcspn and memcpy are CONTRACT MODELS (stubs.c): the
+ * memcpy model makes the copied range arbitrary except the ghost bytes, so the WHOLE-STRING round trip is not claimed here
+ * (bounded target qs_bounded + the complete per-byte lemma qs_unit cover contents). */
+#if defined(T_QS_PROOF)
+void h_qs_proof(void)
+{
+    char in[N];
+    any_string(in);
+    char out[2 * N];
+    for (size_t k = 0; k < 2 * N; k++) { char junk; out[k] = k < 2 * g_len + 1 ? junk : 0x5A; }
+    g_out0 = out;
+    log_quoted_string(in, out);
+    size_t lr = 0;                               /* strlen(out), constant bound (the array has 2*N bytes) */
+    _Bool term = 0;
+    for (size_t k = 0; k < 2 * N; k++)
+        if (!term) { if (out[k] == 0) term = 1; else lr = k + 1; }
+    __CPROVER_assert(term, "ensures: the output is NUL-terminated inside the buffer");
+#ifdef TWIN_QSP_SIZE
+    __CPROVER_assert(lr < 2 * g_len || g_len == 0, "ensures: TWIN (too strong) output shorter than 2*len");
+#else
+    __CPROVER_assert(lr <= 2 * g_len, "ensures: output is NUL-terminated within 2*len+1 bytes");
+#endif
+    __CPROVER_assert(!(g >= 2 * g_len + 1 && g < 2 * N) || (unsigned char)out[g] == 0x5A,
+                     "ensures: nothing is written behind the first 2*len+1 bytes of the buffer (guard bytes intact, ghost index)");
+#ifdef TWIN_QSP_ALPHABET
+    __CPROVER_assert(!(g < lr) || out[g] == '\r' || out[g] == '\n' || out[g] == '\t', "ensures: TWIN (negated) no raw line break");
+#else
+    __CPROVER_assert(!(g < lr) || (out[g] != '\r' && out[g] != '\n' && out[g] != '\t'),
+                     "ensures: no raw CR, LF or TAB in the output (ghost index: every byte)");
+    __CPROVER_assert(!(g < lr && out[g] == '"') || (g >= 1 && out[g - 1] == '\\'),
+                     "ensures: every double quote in the output is preceded by a backslash");
+    __CPROVER_assert(!(g < lr && out[g] == '\\') || (g >= 1 && out[g - 1] == '\\') ||
+                     (g + 1 < lr && (out[g + 1] == 'r' || out[g + 1] == 'n' || out[g + 1] == 't' || out[g + 1] == '"' || out[g + 1] == '\\')),
+                     "ensures: every backslash in the output is escaped or introduces an escape");
+#endif
+    __CPROVER_assert(in[g_len] == 0 && (g_len == 0 || in[0] != 0), "ensures: input not written (terminator in place)");
+#ifdef REACH
+    __CPROVER_assert(!(g_len >= 3 && in[0] == 'a' && in[1] == '\n' && in[2] == 'b' && out[1] == '\\' && out[2] == 'n'), "reach: copied run, escape, copied run");
+    __CPROVER_assert(!(out[0] == '\\' && out[1] == '"'), "reach: escaped quote");
+    __CPROVER_assert(!(lr == 2 * (N - 1)), "reach: maximal expansion");
+    __CPROVER_assert(!(lr == N - 1 && g_len == N - 1), "reach: full-length input without any escape");
+    __CPROVER_assert(!(lr == 0), "reach: empty input");
+#endif
+}
+#endif
+
 /* per-unit lemma (complete): one byte, or one byte after a plain byte, decodes to itself whatever follows */
 #if defined(T_QS_UNIT)
 void h_qs_unit(void)
